@@ -188,7 +188,7 @@ def run(ck):
                "key-shuffled and re-serialised variants must give the same inventory and the same state digests, rewards and observations under the same "
                "actions; evaluations = rows compared + steps compared")
     coq_props(ck)
-    gen_tie.check(ck, ["build"])
+    gen_tie.check(ck, ["build", "schedule"])
     want = buildkeys.coq_text()
     have = open(os.path.join(COQ_DIR, "Model", "BuildKeys.v")).read()
     ck.obligation("coq/Model/BuildKeys.v is the identifier table the harness uses", "tie", want == have, "" if want == have else "regenerate with harness/lib/buildkeys.py")
